@@ -109,11 +109,17 @@ func newCallStateCache(max int, ttl time.Duration) *callStateCache {
 }
 
 // callStateIdentity renders the caller identity half of the cache key.
+//
+// Framed exactly like tokenAad: a leading 0x00 for the anonymous caller and a
+// leading 0x01 for an authenticated one. Without the tag byte an
+// authenticated caller with an empty domain and the principal "anonymous"
+// renders the same string as the anonymous caller and the two share cache
+// entries.
 func callStateIdentity(auth *AuthContext) string {
 	if auth == nil || !auth.Authenticated {
 		return "\x00anonymous"
 	}
-	return auth.Domain + "\x00" + auth.Principal
+	return "\x01" + auth.Domain + "\x00" + auth.Principal
 }
 
 func (c *callStateCache) get(callID string, auth *AuthContext) *resolvedCall {
